@@ -110,12 +110,77 @@ pub fn run(text: &str, cases_path: &str, out: &mut impl Write) {
                 let _ = w.step(op).await;
             }
             let acct = w.devs[0].bridge.account.clone();
-            let account = acct.lock().await;
+            let mut account = acct.lock().await;
+            // two external file blobs (attachments) for the blob half of the property
+            {
+                let folder = *w.fslots.get("0").unwrap();
+                for (k, size) in [(0usize, 300usize), (1, 4000)] {
+                    let p = w.base.join(format!("blob-input-{k}.bin"));
+                    std::fs::write(&p, format!("c16 blob {k} {}", "b".repeat(size)).into_bytes()).unwrap();
+                    if let Ok(secret) = sos_vault::secret::Secret::try_from(p.clone()) {
+                        let meta = sos_vault::secret::SecretMeta::new(format!("Fblob{k}"), secret.kind());
+                        let _ = account.create_secret(meta, secret, sos_client_storage::AccessOptions { folder: Some(folder), ..Default::default() }).await;
+                    }
+                }
+            }
             let target = account.backend_target().await;
             let folders = account.list_folders().await.unwrap_or_default();
             let account_id = *account.account_id();
             let (f, c, _) = report(&target, &account_id, folders.clone()).await;
             writeln!(out, "{id} clean failures={f} complete={}", c as u8).unwrap();
+            // ---- external file blobs: the canonical set is the replay of the file log
+            {
+                use sos_integrity::{file_integrity, FileIntegrityEvent};
+                use sos_sync::StorageEventLogs;
+                let files: indexmap::IndexSet<sos_core::ExternalFile> = match account.file_log().await {
+                    Ok(log) => {
+                        let log = log.read().await;
+                        sos_reducers::FileReducer::new(&*log).reduce(None).await.unwrap_or_default()
+                    }
+                    Err(_) => Default::default(),
+                };
+                async fn freport(target: &BackendTarget, files: &indexmap::IndexSet<sos_core::ExternalFile>) -> (Vec<sos_core::ExternalFile>, bool) {
+                    let Ok((mut rx, _cancel)) = file_integrity(target, files.clone(), 1).await else { return (vec![], false) };
+                    let mut failed = vec![];
+                    let mut complete = false;
+                    let deadline = tokio::time::Instant::now() + Duration::from_secs(5);
+                    loop {
+                        match tokio::time::timeout_at(deadline, rx.recv()).await {
+                            Ok(Some(FileIntegrityEvent::Failure(f, _))) => failed.push(f),
+                            Ok(Some(FileIntegrityEvent::Complete)) => complete = true,
+                            Ok(Some(_)) => {}
+                            Ok(None) => break,
+                            Err(_) => break,
+                        }
+                        if complete {
+                            break;
+                        }
+                    }
+                    (failed, complete)
+                }
+                let (failed, c) = freport(&target, &files).await;
+                writeln!(out, "{id} fclean files={} failures={} complete={}", files.len(), failed.len(), c as u8).unwrap();
+                let paths = target.paths();
+                for (k, file) in files.iter().enumerate() {
+                    let path = paths.into_file_path(file);
+                    let Ok(orig) = std::fs::read(&path) else {
+                        writeln!(out, "{id} fmut blob b{k} content pos=0 detected=0 complete=0 missing-on-disk").unwrap();
+                        continue;
+                    };
+                    for p in positions(0, orig.len(), stride * 9) {
+                        let mut m = orig.clone();
+                        m[p] ^= 0xff;
+                        std::fs::write(&path, &m).unwrap();
+                        let (failed, c) = freport(&target, &files).await;
+                        writeln!(out, "{id} fmut blob b{k} content pos={p} detected={} complete={}", failed.contains(file) as u8, c as u8).unwrap();
+                    }
+                    std::fs::write(&path, &orig).unwrap();
+                    std::fs::remove_file(&path).unwrap();
+                    let (failed, c) = freport(&target, &files).await;
+                    writeln!(out, "{id} frm blob b{k} detected={} complete={}", failed.contains(file) as u8, c as u8).unwrap();
+                    std::fs::write(&path, &orig).unwrap();
+                }
+            }
             let fname = |fid: &VaultId| w.fnames.get(fid).cloned().unwrap_or_else(|| "x".into());
             match &target {
                 BackendTarget::FileSystem(paths) => {
